@@ -513,6 +513,8 @@ func vRunRace(c *vCase) {
 	}
 	cleanup()
 	atomic.StoreInt32(&e.yieldOn, 0)
+	c.Describe("blocks=%d requests=%d yields=%d saves=%d", e.get("core.process.end")-before["core.process.end"], atomic.LoadInt64(&e.requests)-reqBefore,
+		e.get("yields")-before["yields"], e.get("save.done")-before["save.done"])
 	c.Cov("workload_"+w.name, 1)
 	c.Cov("blocks_processed", int(e.get("core.process.end")-before["core.process.end"]))
 	c.Cov("requests_run_in_core_loop", int(e.get("core.request.end")-before["core.request.end"]))
